@@ -13,6 +13,13 @@ of every returned molecule.  Two ways of fooling a count check have oracle claus
     was made into a different atom / bond.  This is NOT the format limit `last-numeric-token-truncated` (all columns
     present, the last one shortened), which is a recorded known finding for xyz and would otherwise hide it.
 
+  * `...:dup:surplus-line-accepted:<atom|bond>` -- a text with one line MORE than the undamaged one is accepted and a record
+    is doubled, the last one of its section lost (the counts are met).  The reader refuses a surplus line only while it
+    is not skipping an unsupported TRIPOS section, so the family `gen-sect-*` varies the ORDER and KIND of the sections
+    (unsupported blocks before ATOM / between ATOM and BOND / after BOND, blank and comment lines, UNITY sections next to
+    unsupported ones, repeated tags, BOND before ATOM; generated and bundled records) under every damage operator; the
+    skip state is part of the reader model (v_skip) and of the theorems of Proofs/ParseSections.v.
+
 This module also hosts what harness/c08.py shares (generators, canonicalisation, Gen emitters).
 """
 import io, os, sys, math, signal, time, json
@@ -387,6 +394,164 @@ def gen_equal_count_bases(ml, rng, fmt, thorough):
     return out
 
 
+# ------------------------------------------------------------------ section layouts of a mol2 text
+# A mol2 text is a sequence of TRIPOS sections.  The reader knows five of them (MOLECULE, ATOM, BOND, UNITY_ATOM_ATTR,
+# UNITY_BOND_ATTR) and SKIPS the lines of every other one; "a surplus line after a complete ATOM / BOND section is
+# refused" holds only while nothing is being skipped.  What molli writes (and every bundled file) has the single layout
+# MOLECULE, ATOM, BOND[, SUBSTRUCTURE]: the skip state is then never entered before the records.  This family varies the
+# layout: unsupported blocks (known TRIPOS names, unknown names, empty bodies, bodies that look like records, repeated
+# tags), comment and blank lines, UNITY sections -- before ATOM, between ATOM and BOND, after BOND, in every molecule of
+# a text -- and BOND before ATOM.  Every damage operator then runs over the whole text.
+OTHER_TAGS = ["SUBSTRUCTURE", "COMMENT", "ALT_TYPE", "DICT", "CRYSIN", "SET", "FF_PBC", "CENTER_OF_MASS", "ROTATABLE_BOND",
+              "XYZZY", "ATOMS", "BOND_ATTR"]
+OTHER_BODY = ["1 UNL1 1", "written by another program", "1 UNL1 1 TEMP 0 **** **** 0 ROOT", "CHARMM", "GAFF_ALT_TYPE_SET",
+              "   10.0   10.0   10.0   90.0   90.0   90.0  1  1"]
+RECORD_LIKE_BODY = ["     1 C       0.000000     0.000000     0.000000 C          1 UNL1 0.000", "     1      1      2   1",
+                    "1 2 3 4 5 6 7 8 9"]
+
+
+def other_block(rng, feats, body=None, tag=None, record_like=False):
+    """One unsupported TRIPOS block: its tag line and 0..3 body lines (none of which is a TRIPOS record)."""
+    tag = tag or rng.choice(OTHER_TAGS)
+    nb = rng.choice([0, 1, 1, 2, 3]) if body is None else body
+    lines = ["@<TRIPOS>" + tag] + [rng.choice(RECORD_LIKE_BODY if record_like else OTHER_BODY) for _ in range(nb)]
+    if nb == 0:
+        feats.add("empty-body")
+    if record_like and nb:
+        feats.add("record-like-body")
+    return lines
+
+
+def unity_groups(rng, n_items):
+    out = []
+    for _ in range(rng.randint(1, 2)):
+        k = rng.choice([0, 1, 1, 2])
+        out.append(f"{rng.randint(1, n_items)} {k}")
+        out += [rng.choice(["charge 1", "charge -1", "color red", "tag x9"]) for _ in range(k)]
+    return out
+
+
+def molecule_spans(lines):
+    """For every molecule of a well-formed mol2 text: dict with the line index of its ATOM tag (`a`), the index after its
+    last atom record (`a_end`), of its BOND tag (`b`), after its last bond record (`b_end`), and its counts."""
+    roles, out, cur = mol2_roles(lines), [], None
+    for i, l in enumerate(lines):
+        s = l.strip()
+        if not s.startswith("@<TRIPOS>"):
+            continue
+        sec = s[len("@<TRIPOS>"):]
+        if sec == "MOLECULE":
+            cur = {"m": i}
+            out.append(cur)
+        elif cur is not None and sec in ("ATOM", "BOND") and sec[0].lower() not in cur:
+            j = i + 1
+            while roles.get(j) == sec.lower():
+                j += 1
+            cur[sec[0].lower()], cur[sec[0].lower() + "_end"] = i, j
+    return [c for c in out if "a" in c and "b" in c and c["a"] < c["b"]]
+
+
+def sectioned(rng, text, where, feats, bond_first=False, ign=False, unity=False, repeat=False, record_like=False,
+              unity_first=False):
+    """`text` (well-formed, layout MOLECULE/ATOM/BOND) with extra sections.  `where`: subset of {"pre", "mid", "post"} =
+    before ATOM / between ATOM and BOND / after BOND, applied to every molecule.  Returns the new text."""
+    lines = to_lines(text)
+    for sp in reversed(molecule_spans(lines)):
+        na, nb = sp["a_end"] - sp["a"] - 1, sp["b_end"] - sp["b"] - 1
+        ins = {"pre": [], "mid": [], "post": []}
+        for pos in ("pre", "mid", "post"):
+            if pos not in where:
+                continue
+            ins[pos] += other_block(rng, feats, record_like=record_like)
+            feats.add({"pre": "other-before-atom", "mid": "other-between-atom-and-bond", "post": "other-after-bond"}[pos])
+            if repeat:
+                tag = ins[pos][0][len("@<TRIPOS>"):]
+                ins[pos] += other_block(rng, feats, tag=tag, body=rng.choice([0, 1]))
+                feats.add("repeated-tag")
+            if ign:
+                ins[pos] = [rng.choice(["", "# comment", "   ", "#"])] + ins[pos] + [rng.choice(["# a comment line", ""])]
+                feats.add("blank-and-comment-lines")
+        if unity and not bond_first:
+            # UNITY sections need the records they refer to, and a TRIPOS record after them: after an unsupported block and
+            # in front of one (the skip state is entered, left for the UNITY loop, entered again)
+            if na and "mid" in where:
+                ins["mid"] += ["@<TRIPOS>UNITY_ATOM_ATTR"] + unity_groups(rng, na)
+                feats.add("unity-after-unsupported")
+            if nb and "post" in where:
+                while ins["post"] and not ins["post"][0].startswith("@<TRIPOS>"):
+                    ins["post"].pop(0)       # the UNITY loops refuse a blank / comment line: a TRIPOS record comes next
+                ins["post"] = ["@<TRIPOS>UNITY_BOND_ATTR"] + unity_groups(rng, nb) + ins["post"]
+                feats.add("unity-before-unsupported")
+        if unity_first and na:
+            # a UNITY_ATOM_ATTR section in front of the records it refers to (after the unsupported block, if any): refused as
+            # soon as a group carries an attribute, walked over when every group is empty
+            ins["pre"] += ["@<TRIPOS>UNITY_ATOM_ATTR"] + unity_groups(rng, na)
+            feats.add("unity-before-atom")
+        atoms, bonds = lines[sp["a"]:sp["a_end"]], lines[sp["b"]:sp["b_end"]]
+        between = lines[sp["a_end"]:sp["b"]]
+        if bond_first and not between:
+            first, second = bonds, atoms
+            feats.add("bond-before-atom")
+        else:
+            first, second = atoms, bonds
+        lines[sp["a"]:sp["b_end"]] = ins["pre"] + first + between + ins["mid"] + second + ins["post"]
+    if len(molecule_spans(to_lines(text))) > 1:
+        feats.add("multi-molecule")
+    return "\n".join(lines) + "\n"
+
+
+def gen_section_bases(ml, rng, thorough):
+    """(name, text, plain text, features) -- texts with varied section layouts; `plain` is the same text in the layout molli
+    writes (the undamaged file the returned molecules are compared with)."""
+    def mol(n, nb_min=1):
+        for _ in range(50):
+            m = rand_molecule(ml, rng, n=n, elems=["H", "C", "N", "O", "Cl", "S"])
+            if m.n_bonds >= nb_min:
+                return m
+        return m
+
+    def plain_of(kind):
+        if kind == "one":
+            return mol(rng.randint(3, 5), 2).dumps_mol2()
+        if kind == "conf":
+            return "".join(m.dumps_mol2() for m in equal_count_group(ml, rng, rng.randint(3, 4), 2, True))
+        if kind == "diff":
+            return "".join(m.dumps_mol2() for m in equal_count_group(ml, rng, rng.randint(2, 4), 2, False))
+        if kind == "three":
+            return "".join(m.dumps_mol2() for m in (mol(rng.randint(2, 4)), mol(rng.randint(1, 3), 0), mol(rng.randint(2, 3))))
+        p = getattr(ml.files, kind)
+        return open(str(p)).read()
+
+    plan = [
+        ("one", dict(where={"pre"})),                                            # the records come after a skipped block
+        ("one", dict(where={"mid"}, record_like=True)),
+        ("one", dict(where={"post"}, ign=True)),
+        ("conf", dict(where={"pre", "mid", "post"}, repeat=True)),
+        ("diff", dict(where={"pre", "mid", "post"}, unity=True)),
+        ("one", dict(where={"pre"}, bond_first=True, ign=True)),
+        ("dmf_mol2", dict(where={"pre", "mid"})),                                # 9-column records with partial charges
+        ("three", dict(where={"pre", "post"}, record_like=True, ign=True)),
+        ("one", dict(where={"pre"}, unity_first=True)),
+    ]
+    if thorough:
+        kinds = ["one", "conf", "diff", "three", "benzene_mol2", "dummy_mol2", "hadd_test_mol2", "fxyl_mol2"]
+        for _ in range(28):
+            where = {p for p in ("pre", "mid", "post") if rng.random() < 0.6} or {"pre"}
+            plan.append((rng.choice(kinds), dict(where=where, **{k: rng.random() < 0.35 for k in
+                                                                  ("bond_first", "ign", "unity", "repeat", "record_like")},
+                                                 unity_first=rng.random() < 0.1)))
+    out = []
+    for b, (kind, kw) in enumerate(plan):
+        plain, feats = plain_of(kind), set()
+        if not kind.endswith("_mol2"):
+            feats.add("generated")
+        else:
+            feats.add("bundled")
+        text = sectioned(rng, plain, feats=feats, **kw)
+        out.append((f"gen-sect-{b}-{kind}-" + "+".join(sorted(kw["where"])), text, plain, sorted(feats)))
+    return out
+
+
 def bundled(ml, fmt, thorough):
     F = ml.files
     if fmt == "xyz":
@@ -503,6 +668,43 @@ def atoms_of(s):
     return [atom_rec(s, i) for i in range(len(s["elems"]))]
 
 
+def written_record(fmt, role, line):
+    """What a record line says when ALL of it is read and every column is what Python's float() / int() accept:
+    ('coords', (x, y, z)) | ('ends', (i, j)) | None when the line is not a record of that kind."""
+    t = line.split()
+    try:
+        if (fmt, role) == ("xyz", "atom"):
+            return ("coords", tuple(float(x) for x in t[1:4])) if len(t) == 4 else None
+        if (fmt, role) == ("mol2", "atom"):
+            return ("coords", tuple(float(x) for x in t[2:5])) if len(t) >= 6 else None
+        if (fmt, role) == ("mol2", "bond"):
+            return ("ends", (int(t[1]) - 1, int(t[2]) - 1)) if len(t) >= 4 else None
+    except ValueError:
+        return None
+    return None
+
+
+def spoiled_record(fmt, lines, d, s):
+    """For a replaced atom / bond record line of an accepted text: (role, what is wrong) when the returned molecule s does not
+    carry, in the place of that record, what the replacing line says; None when it does (or the line was no record line)."""
+    roles = roles_of(fmt, lines)
+    role = roles.get(d[1])
+    if role not in ("atom", "bond"):
+        return None
+    r, i = 0, d[1] - 1
+    while i >= 0 and roles.get(i) == role:
+        r, i = r + 1, i - 1
+    w = written_record(fmt, role, d[2])
+    if w is None:
+        return (role, "the replacing line is not a well-formed record (a column is missing, surplus, or not a number)")
+    if w[0] == "coords":
+        if r < len(s["coords"]) and not all(feq(p, q) for p, q in zip(s["coords"][r], w[1])):
+            return (role, f"atom #{r} has coordinates {s['coords'][r]}, the line says {w[1]}")
+    elif r < len(s["bonds"]) and all(0 <= k < s["n_atoms"] for k in w[1]) and tuple(s["bonds"][r][:2]) != w[1]:
+        return (role, f"bond #{r} joins atoms {s['bonds'][r][:2]}, the line says {w[1]}")
+    return None
+
+
 def same_atoms(a, b):
     x, y = atoms_of(a), atoms_of(b)
     return len(x) == len(y) and all(atom_eq(p, q) for p, q in zip(x, y))
@@ -515,6 +717,23 @@ def records_of_another(s, j, orig):
     for i, o in enumerate(orig):
         if i != j and ((da and s["elems"] and same_atoms(s, o)) or (db and s["bonds"] and s["bonds"] == o["bonds"])):
             return i
+    return None
+
+
+def shifted_records(s, o):
+    """('atom'|'bond', i) when the returned molecule s has the shape of the undamaged o but its atom (bond) records are those
+    of o with record #i doubled, the following ones moved down by one and the last one lost."""
+    if sig_diff_records(s, o) is None:
+        return None
+    xa, ya = atoms_of(s), atoms_of(o)
+    for i in range(len(ya) - 1):
+        exp = ya[:i + 1] + ya[i:-1]
+        if all(atom_eq(p, q) for p, q in zip(xa, exp)) and not same_atoms(s, o):
+            return ("atom", i)
+    xb, yb = s["bonds"], o["bonds"]
+    for i in range(len(yb) - 1):
+        if xb == yb[:i + 1] + yb[i:-1] and xb != yb:
+            return ("bond", i)
     return None
 
 
@@ -651,6 +870,31 @@ def plan_record_damages(fmt, lines, thorough):
     return ds
 
 
+def plan_junk_damages(fmt, lines, thorough):
+    """Deterministic: each mandatory token of the LAST atom record and the LAST bond record of the last molecule (of every
+    molecule in the thorough tier) spoiled in place by a character that belongs to no number, symbol or type (`rec-junk`): in
+    the middle of the token and right after it -- a record parser that stops reading a column at the first foreign character
+    (a regular expression anchored at one end, a lenient number parser) accepts such a line with a shortened value -- and a
+    surplus token after the last mandatory column."""
+    roles = roles_of(fmt, lines)
+    ends = [i for i in range(len(lines)) if roles.get(i) in ("atom", "bond") and roles.get(i + 1) != roles.get(i)]
+    if not ends:
+        return []
+    owner = (xyz_block_of_line if fmt == "xyz" else mol2_block_of_line)(lines)
+    keep = {owner[i] for i in ends} if thorough else {max(owner[i] for i in ends)}
+    ds = []
+    for i in ends:
+        if owner[i] not in keep:
+            continue
+        toks, need = lines[i].split(), MANDATORY[(fmt, roles[i])]
+        for j in range(min(len(toks), need)):
+            t = toks[j]
+            for new in ([t[:len(t) // 2] + "?" + t[len(t) // 2 + 1:]] if len(t) > 1 else []) + [t + "?"]:
+                ds.append((("repl", i, " ".join(toks[:j] + [new] + toks[j + 1:])), "rec-junk"))
+        ds.append((("repl", i, " ".join(toks[:need] + ["?7"])), "rec-junk"))
+    return ds
+
+
 # ------------------------------------------------------------------ the oracle
 def judge(fmt, lines, owner, orig, d, kind, outcome):
     """Property C10 judged on the implementation alone. Returns None or (signature, text)."""
@@ -692,10 +936,26 @@ def judge(fmt, lines, owner, orig, d, kind, outcome):
             return (f"C10:{fmt}:last-numeric-token-truncated",
                     f"cut at byte {d[2]} of the last line {lines[-1]!r} is accepted; only the last record differs")
         if d[0] == "repl" and hit == j and diff in ((1, 0), (0, 1)):
-            continue          # a corrupted token that is still a valid token changes exactly its own record
+            # a corrupted token that is still a valid token changes exactly its own record -- to what the line now SAYS; a line
+            # that is no record any more (a column float() / int() refuse, a missing or surplus column), or a value other than
+            # the written one, must not come back as a record
+            bad = spoiled_record(fmt, lines, d, s)
+            if bad:
+                return (f"{tag}:corrupted-record-accepted:{bad[0]}",
+                        f"{bad[0]} record {lines[d[1]]!r} replaced by {d[2]!r} is accepted and molecule #{j} differs from the "
+                        f"undamaged one: {bad[1]} (record diff {diff})")
+            continue
         if d[0] == "cut" and d[1] != len(lines) - 1 and hit == j and diff in ((1, 0), (0, 1)) and j == len(ret) - 1:
             return (f"C10:{fmt}:last-numeric-token-truncated",
                     f"cut at byte {d[2]} of line {d[1]} is accepted; only that record differs")
+        sh = shifted_records(s, orig[j]) if d[0] == "dup" else None
+        if sh is not None:
+            # the text has one line MORE than the undamaged one and was accepted: the surplus line was taken for a record and the
+            # record it displaced was dropped without a word (the declared counts are met, so no count check can see it)
+            role = roles_of(fmt, lines).get(d[1])
+            return (f"{tag}:surplus-line-accepted:{sh[0]}",
+                    f"line {d[1]} ({role or 'other'} line {lines[d[1]]!r}) duplicated: the text is accepted, molecule #{j} has the "
+                    f"declared counts but {sh[0]} record #{sh[1]} twice and its last {sh[0]} record is lost (record diff {diff})")
         oth = records_of_another(s, j, orig)
         if oth is not None:
             return (f"{tag}:records-of-another-molecule",
@@ -751,6 +1011,11 @@ def collect(ctx, rep, ml, fmt):
     # texts whose molecules declare equal counts; own random stream, so that the families above keep theirs
     import random
     bases += gen_equal_count_bases(ml, random.Random(ctx.seed * 7919 + (1010 if fmt == "xyz" else 1011)), fmt, thorough)
+    sect = {}
+    if fmt == "mol2":        # varied section layouts (last, own random stream: the families above keep their texts and damages)
+        for name, text, plain, feats in gen_section_bases(ml, random.Random(ctx.seed * 7919 + 1012), thorough):
+            bases.append((name, text))
+            sect[name] = (plain, feats)
     hangs = 0
     table = MolTable()
     base_lines, cases, meta, tokens = [], [], [], set()
@@ -764,6 +1029,8 @@ def collect(ctx, rep, ml, fmt):
             # the undamaged text itself is rejected: nothing to damage, but the model must agree that it is rejected
             # (a reader that starts refusing what molli writes must not make this check pass with no coverage)
             rep.count(f"{fmt}:base-rejected")
+            if bname in sect:
+                rep.count("mol2:base:section-layout:rejected-as-a-whole")
             rep.case(key=f"{fmt}:{bname}:rejected", sample={"fmt": fmt, "base": bname, "outcome": o0[1]})
             if o0[0] == "err":
                 base_lines.append(lines)
@@ -781,16 +1048,34 @@ def collect(ctx, rep, ml, fmt):
         bi = len(base_lines)
         base_lines.append(lines)
         budget = 40 if len(lines) > 60 else 200
+        if bname in sect:
+            rep.count("mol2:base:section-layout")
+            for f in sect[bname][1]:
+                rep.count(f"mol2:layout:{f}")
+            budget = max(budget, len(lines)) if len(lines) <= 120 else budget      # every line deleted / duplicated
+            # unsupported blocks, comment lines and the order of the sections carry no molecule content: the text reads as
+            # the molecules of the same records in the layout molli writes
+            op = observe(ml, fmt, sect[bname][0])
+            if op[0] == "ok" and not (len(op[1]) == len(orig) and all(sig_eq(a, b) for a, b in zip(orig, op[1]))):
+                rep.violate("C10:mol2:layout:unsupported-sections-change-content",
+                            f"{bname}: the text with extra sections ({', '.join(sect[bname][1])}) is accepted but its molecules "
+                            "differ from those of the same records without the extra sections",
+                            {"fmt": fmt, "lines": lines, "plain": to_lines(sect[bname][0]), "damage": ["none"], "kind": "layout"})
         eqc = bname.startswith("gen-eqc-")
         if eqc:
             rep.count(f"{fmt}:base:equal-counts")
         if len(orig) > 1 and len({(o["n_atoms"], o["n_bonds"]) for o in orig}) < len(orig):
             rep.count(f"{fmt}:base:some-molecules-with-equal-counts")
-        plan = plan_damages(rng, lines, thorough, budget, fmt=fmt, tok_budget=24 if eqc and not thorough else None)
+        plan = plan_damages(rng, lines, thorough, budget, fmt=fmt,
+                            tok_budget=24 if (eqc or bname in sect) and not thorough else None)
         # every planned damage goes through the implementation and the oracle; the comparison with the model inside Coq
         # re-parses the whole text per case, so for long texts it gets a sample (always incl. what the oracle flagged)
         cap = max(80, (200_000 if thorough else 40_000) // max(len(lines), 1))
         in_coq = set(range(len(plan))) if len(plan) <= cap else set(rng.sample(range(len(plan)), cap)) | {0}
+        if len(lines) <= 120 or thorough:        # added after the sampling: the random streams of the other families are theirs
+            junk = plan_junk_damages(fmt, lines, thorough)
+            in_coq |= set(range(len(plan), len(plan) + len(junk)))
+            plan += junk
         for di, (d, kind) in enumerate(plan):
             if hangs >= MAX_HANGS:
                 rep.count(f"{fmt}:not-run-after-{MAX_HANGS}-hangs")
@@ -823,7 +1108,9 @@ def run(ctx, rep):
     rep.rule = ("bundled + generated xyz/mol2 texts (incl. multi-molecule texts whose molecules declare EQUAL counts: conformers "
                 "and different molecules) x damage operators: every line boundary (long texts: a sample plus every structural "
                 "boundary of every molecule), every byte offset of the last line, line deletions, duplications, token corruptions, "
-                "each token of the last atom / bond record dropped; every returned molecule is compared in CONTENT (elements, "
+                "each token of the last atom / bond record dropped; mol2 texts in other SECTION LAYOUTS than the one molli writes "
+                "(unsupported TRIPOS blocks before ATOM / between ATOM and BOND / after BOND, comment lines, UNITY sections, "
+                "repeated tags, BOND before ATOM) with EVERY line deleted / duplicated; every returned molecule is compared in CONTENT (elements, "
                 "labels, coordinates, bond endpoints and types, charges) with the molecule at the same position of the undamaged "
                 "text; a case is non-trivial when the text was actually damaged; distinct by (format, base text, damage)")
     rep.trusted += ["harness/c10.py: damage operators mirrored in Coq (apply_damage), canonicalisation of returned molecules, "
@@ -902,6 +1189,12 @@ def replay(ctx, data):
         return []
     o0 = observe(ml, fmt, damaged_text(lines, ("none",)))
     if o0[0] != "ok":
+        return []
+    if data.get("kind") == "layout":
+        op = observe(ml, fmt, damaged_text(data["plain"], ("none",)))
+        if op[0] == "ok" and not (len(op[1]) == len(o0[1]) and all(sig_eq(a, b) for a, b in zip(o0[1], op[1]))):
+            return [vlib.Violation("C10:mol2:layout:unsupported-sections-change-content",
+                                   "the text with extra sections is accepted but its molecules differ from the plain layout")]
         return []
     owner = xyz_block_of_line(lines) if fmt == "xyz" else mol2_block_of_line(lines)
     o = observe(ml, fmt, damaged_text(lines, d))
